@@ -299,7 +299,18 @@ func TestVerifBounded(t *testing.T) {
 			if r.role != "" {
 				res.Config = append(res.Config, cfg("toolchain", r.role))
 			}
-			res.Config = append(res.Config, cfg("experiment-commit", r.hash), cfg("baseline-commit", "dddd"), cfg("experiment-commit-time", stamps[r.hash]))
+			res.Config = append(res.Config, cfg("experiment-commit", r.hash), cfg("experiment-commit-time", stamps[r.hash]))
+			// the denominator hash of a trial is that of its baseline measurements;
+			// other records may lack the key or disagree (decided by the record's values,
+			// so that a row turns into the same result every time)
+			switch {
+			case r.role == "baseline":
+				res.Config = append(res.Config, cfg("baseline-commit", "dddd"))
+			case int(r.vals[0]*4)%3 == 0:
+				res.Config = append(res.Config, cfg("baseline-commit", "ffff"))
+			case int(r.vals[0]*4)%3 == 1:
+				res.Config = append(res.Config, cfg("baseline-commit", "dddd"))
+			}
 			if r.note != "" {
 				res.Config = append(res.Config, cfg("note", r.note))
 			}
